@@ -431,3 +431,37 @@ func pbDropField(r *kit.Rng, b []byte, depth int) ([]byte, string, bool) {
 	out = append(out, b[sp.end:]...)
 	return out, fmt.Sprintf("%d", tag>>3), true
 }
+
+// pbAllDrops enumerates every single-field removal of a message (at every nesting level that parses as a message), capped.
+type pbVariant struct {
+	path string
+	bz   []byte
+}
+
+func pbAllDrops(b []byte, depth int, budget *int) []pbVariant {
+	spans, ok := pbSpans(b)
+	if !ok || len(spans) == 0 || *budget <= 0 {
+		return nil
+	}
+	var out []pbVariant
+	for _, sp := range spans {
+		if *budget <= 0 {
+			break
+		}
+		tag, _, _ := pbReadVarint(b, sp.start)
+		v := append(append([]byte(nil), b[:sp.start]...), b[sp.end:]...)
+		out = append(out, pbVariant{fmt.Sprintf("%d", tag>>3), v})
+		*budget--
+		if sp.wt == 2 && sp.pe > sp.ps && depth < 6 {
+			for _, iv := range pbAllDrops(b[sp.ps:sp.pe], depth+1, budget) {
+				w := append([]byte(nil), b[:sp.start]...)
+				w = append(w, pbEncVarint(tag)...)
+				w = append(w, pbEncVarint(uint64(len(iv.bz)))...)
+				w = append(w, iv.bz...)
+				w = append(w, b[sp.end:]...)
+				out = append(out, pbVariant{fmt.Sprintf("%d>%s", tag>>3, iv.path), w})
+			}
+		}
+	}
+	return out
+}
